@@ -5,6 +5,8 @@ package l4tls
 
 import (
 	"context"
+	"encoding/json"
+	"sync/atomic"
 	"crypto/ecdsa"
 	"crypto/elliptic"
 	"crypto/rand"
@@ -25,6 +27,20 @@ import (
 
 	"github.com/mholt/caddy-l4/layer4"
 )
+
+// a terminal handler that counts its invocations (for routed evaluations of the tls matcher)
+type vTLSRec struct{}
+
+var vTLSRecHits int32
+
+func (vTLSRec) CaddyModule() caddy.ModuleInfo {
+	return caddy.ModuleInfo{ID: "layer4.handlers.verif_tlsrec", New: func() caddy.Module { return new(vTLSRec) }}
+}
+func (*vTLSRec) Handle(*layer4.Connection, layer4.Handler) error {
+	atomic.AddInt32(&vTLSRecHits, 1)
+	return nil
+}
+func init() { caddy.RegisterModule(vTLSRec{}) }
 
 func firstFlight(cfg *tls.Config) []byte {
 	c1, c2 := net.Pipe()
@@ -297,6 +313,29 @@ func TestVerifTLS(t *testing.T) {
 			ok2, err2 := layer4.MatcherSet{m}.Match(cx2)
 			if ok2 || err2 == nil {
 				out.fail(idx, "incomplete-decided", fmt.Sprintf("the tls matcher decided (%v, %v) on the first %d of %d bytes of a hello", ok2, err2, k, len(rec)))
+			}
+		}
+		// a second TLS layer on the same connection (TLS in TLS, or a subroute behind the tls handler): after the outer hello was
+		// matched above, the connection is wrapped (as the tls handler does after terminating) and the wrapped stream starts with
+		// another ClientHello, which the matcher must judge on its own bytes
+		if idx%4 == 0 {
+			inner := firstFlight(&tls.Config{ServerName: "inner.example", NextProtos: []string{"inner-proto"}, InsecureSkipVerify: true})
+			if len(inner) > 50 {
+				var routes layer4.RouteList
+				if err := json.Unmarshal([]byte(`[{"match":[{"tls":{"sni":["inner.example"],"alpn":["inner-proto"]}}],"handle":[{"handler":"verif_tlsrec"}]}]`), &routes); err != nil {
+					t.Fatal(err)
+				}
+				if err := routes.Provision(ctx); err != nil {
+					t.Fatal(err)
+				}
+				cxB := cx.Wrap(&sconn{chunks: [][]byte{inner}})
+				before := atomic.LoadInt32(&vTLSRecHits)
+				_ = routes.Compile(zap.NewNop(), time.Second, layer4.HandlerFunc(func(*layer4.Connection) error { return nil })).Handle(cxB)
+				snB, _ := cxB.Context.Value(layer4.ReplacerCtxKey).(*caddy.Replacer).GetString("l4.tls.server_name")
+				if atomic.LoadInt32(&vTLSRecHits) == before {
+					out.fail(idx, "nested-hello-mismatch", fmt.Sprintf("after the outer hello (server name %q) was matched and the connection wrapped, a route for the inner hello's own server name and protocol (inner.example, inner-proto) does not match it; {l4.tls.server_name} is %q", sv.ServerName, snB))
+				}
+				stats["nested hellos"]++
 			}
 		}
 		nonHs := append([]byte(nil), rec...)
